@@ -28,6 +28,8 @@ func init() {
 
 func (g *gen) engValue(mem int) []byte {
 	switch c := g.intn(100); {
+	case c < 4:
+		return nil // Put(k, nil): an empty value, not a deletion
 	case c < 10:
 		return []byte{}
 	case c < 55:
@@ -62,7 +64,7 @@ func genEngineOps(g *gen, w *bufio.Writer, mem int, steps int) {
 	for s := 0; s < steps; s++ {
 		switch x := g.intn(100); {
 		case x < 34:
-			fmt.Fprintln(w, join("put", hx(g.engKey()), hx(g.engValue(mem))))
+			fmt.Fprintln(w, join("put", hx(g.engKey()), hxv(g.engValue(mem))))
 		case x < 44:
 			fmt.Fprintln(w, join("del", hx(g.engKey())))
 		case x < 64:
@@ -88,7 +90,7 @@ func genEngineOps(g *gen, w *bufio.Writer, mem int, steps int) {
 					if bm > 8000 { // a batch entry must fit one log record (32 KB); the oversize branch belongs to C03
 						bm = 8000
 					}
-					parts = append(parts, "p", hx(k), hx(g.engValue(bm)))
+					parts = append(parts, "p", hx(k), hxv(g.engValue(bm)))
 				}
 			}
 			parts[1] = strconv.Itoa((len(parts) - 2) / 3)
